@@ -398,7 +398,7 @@ type Reach struct {
 // wrappers); external callees are leaves (recorded in Set but not expanded),
 // except that calls *back* into the module from external code are not followed.
 // stop(fn) = true prunes below fn (fn itself is still in the set).
-func (w *World) ReachFrom(roots []*ssa.Function, stop func(*ssa.Function) bool) *Reach {
+func (w *World) ReachFrom(roots []*ssa.Function, stop func(*ssa.Function) bool, edgeOK ...func(caller *ssa.Function, site ssa.CallInstruction, callee *ssa.Function) bool) *Reach {
 	g := w.CG()
 	r := &Reach{w: w, Set: map[*ssa.Function]bool{}, pred: map[*ssa.Function]*ssa.Function{}, site: map[*ssa.Function]ssa.CallInstruction{}}
 	var q []*ssa.Function
@@ -465,6 +465,15 @@ func (w *World) ReachFrom(roots []*ssa.Function, stop func(*ssa.Function) bool) 
 		for _, e := range outs {
 			c := e.Callee.Func
 			if c == nil || r.Set[c] {
+				continue
+			}
+			skip := false
+			for _, ok := range edgeOK {
+				if !ok(f, e.Site, c) {
+					skip = true
+				}
+			}
+			if skip {
 				continue
 			}
 			// a closure exists only if its enclosing function ran: VTA merges all
